@@ -198,11 +198,22 @@ pub fn worker_main(args: &[String], work: &dyn Fn(&str, &str, u8, u64, usize) ->
             let _ = writeln!(o, "B {}", i);
             let _ = o.flush();
         }
-        let rec = work(family, prop, tier, seed, i);
+        let mut rec = work(family, prop, tier, seed, i);
+        // monitor on the OS thread's panic state: once every model of the job has returned (normally or by unwinding
+        // into the harness' catch_unwind), no panic is in flight. If one still is, an unwind was left suspended inside a
+        // coroutine and every later model on this thread would run with loom's `panicking()` guards flipped.
+        let leaked = std::thread::panicking();
+        if leaked {
+            rec.v("panic_state_leaked", "", "std::thread::panicking() is still true on this OS thread after the models of this job returned: an unwind was left suspended, later models here run with loom's panicking() guards switched".to_string());
+        }
         {
             let mut o = out.lock();
             let _ = writeln!(o, "R {}", serde_json::to_string(&rec).unwrap());
             let _ = o.flush();
+        }
+        if leaked {
+            // this process is spoiled; the orchestrator starts a fresh worker for the remaining jobs of the shard
+            std::process::exit(3);
         }
         i += stride;
     }
